@@ -832,12 +832,13 @@ class CSSMatch(_DocumentNav):
 
         if relation[0].rel_type == REL_PARENT:
             parent = self.get_parent(el, no_iframe=self.iframe_restrict)
-            while not found and parent:
+            # The `BeautifulSoup` document object is the parent of the root element, but it is not an element.
+            while not found and parent and not self.is_doc(parent):
                 found = self.match_selectors(parent, relation)
                 parent = self.get_parent(parent, no_iframe=self.iframe_restrict)
         elif relation[0].rel_type == REL_CLOSE_PARENT:
             parent = self.get_parent(el, no_iframe=self.iframe_restrict)
-            if parent:
+            if parent and not self.is_doc(parent):
                 found = self.match_selectors(parent, relation)
         elif relation[0].rel_type == REL_SIBLING:
             sibling = self.get_previous_tag(el)
